@@ -45,6 +45,7 @@ fn main() {
     let a = |i: usize| args.get(i).map(|s| s.as_str()).unwrap_or("");
     match a(1) {
         "probe" => probe::run(),
+        "refetch" => probe::refetch(),
         "c31" => run_file(c31::run_case, a(2), a(3)),
         "c32" => run_file(c32::run_case, a(2), a(3)),
         "c36" => run_file(c36::run_case, a(2), a(3)),
